@@ -43,12 +43,12 @@ def _obj(p, uuid, label="CAR"):
     return G.mk3d(dict(x=p[0], y=p[1], z=0.0, yaw=0.0, size=[2.0, 4.0, 1.5], label=label, uuid=uuid, score=0.9))
 
 
-def R(e, g, near, re=None, rg=None, elabel="CAR", glabel="CAR", raw=None):
+def R(e, g, near, re=None, rg=None, elabel="CAR", glabel="CAR", raw=None, policy=None):
     """pooled result object for pair (e,g,near); uuids optionally renamed (geometry/score keyed by the original pair); raw = the
     dataset / message spelling the labels were converted from (same evaluated label)."""
     en = (re or {}).get(e, e)
     gn = None if g is None else (rg or {}).get(g, g)
-    k = (e, g, near, en, gn, elabel, glabel, raw)
+    k = (e, g, near, en, gn, elabel, glabel, raw, policy)
     if k not in _POOL:
         eo = _obj((0.0, 0.0), en, elabel)
         go = None if g is None else _obj(((SC[(e, g)] if near else 5.0 + SC[(e, g)]), 0.0), gn, glabel)
@@ -56,7 +56,11 @@ def R(e, g, near, re=None, rg=None, elabel="CAR", glabel="CAR", raw=None):
             eo.semantic_label = Label(eo.semantic_label.label, raw[0], list(eo.semantic_label.attributes))
             if go is not None:
                 go.semantic_label = Label(go.semantic_label.label, raw[1], list(go.semantic_label.attributes))
-        _POOL[k] = DynamicObjectWithPerceptionResult(eo, go)
+        if policy is not None:
+            from perception_eval.evaluation.matching import MatchingLabelPolicy
+            _POOL[k] = DynamicObjectWithPerceptionResult(eo, go, MatchingLabelPolicy[policy])
+        else:
+            _POOL[k] = DynamicObjectWithPerceptionResult(eo, go)
     return _POOL[k]
 
 
@@ -99,6 +103,7 @@ def units(tier, seed):
     u.append(dict(kind="long"))
     for i in range(0, len(FR2), 7):
         u.append(dict(kind="rawname", lo=i, hi=min(len(FR2), i + 7)))
+        u.append(dict(kind="unk_tracks", lo=i, hi=min(len(FR2), i + 7)))
     for i in range(len(FR2)):
         u.append(dict(kind="sum", first=i))
         u.append(dict(kind="two_label", first=i))
@@ -275,6 +280,11 @@ def run_unit(unit, acc):
                 h = [()] + [FR2[(start + stride * i) % len(FR2)] for i in range(30)]
                 for gcount in (3, 40):
                     check_case(dict(kind="hist", hist=[list(map(list, f)) for f in h], G=gcount, mode="CENTERDISTANCE"), acc)
+    elif k == "unk_tracks":
+        for p in FR2[unit["lo"]:unit["hi"]]:
+            for cur in FR2:
+                for nxt in FR2[::3]:
+                    check_case(dict(kind="unk_tracks", hist=[list(map(list, p)), list(map(list, cur)), list(map(list, nxt))]), acc)
     elif k == "rawname":
         for p in FR2[unit["lo"]:unit["hi"]]:
             for cur in FR2:
@@ -332,6 +342,20 @@ def check_case(case, acc):
         if (c.tp, c.id_switch, round(c.tp_matching_score, 9)) != (c0.tp, c0.id_switch, round(c0.tp_matching_score, 9)) or c.fp != c0.fp + n_unk:
             bad("extras", "adding %s results changes the accounting: %s -> %s" % (case["extra"], _results(c0), _results(c)))
         acc.state(("extras", case["extra"], hist[0], hist[1]), nontrivial=True)
+    elif k == "unk_tracks":
+        # tracks whose estimates are labelled unknown, paired with car ground truths under the policy that accepts unknown estimates
+        # (and any-label estimates under ALLOW_ANY): label-correct pairs, so the accounting is that of car-labelled tracks
+        hist = [tuple(tuple(r) for r in f) for f in case["hist"]]
+        acc.exec(3)
+        # (a GT-less estimate labelled unknown / bus is not a result of the evaluated label CAR: the reference history leaves those out)
+        c0 = CLEAR([[R(e, g, n, policy="ALLOW_UNKNOWN") for (e, g, n) in f if g is not None] for f in hist], 3, [CAR], MatchingMode.CENTERDISTANCE, [1.0])
+        cu = CLEAR([[R(e, g, n, elabel="UNKNOWN", policy="ALLOW_UNKNOWN") for (e, g, n) in f] for f in hist], 3, [CAR], MatchingMode.CENTERDISTANCE, [1.0])
+        ca = CLEAR([[R(e, g, n, elabel="BUS" if e == "a" else "UNKNOWN", policy="ALLOW_ANY") for (e, g, n) in f] for f in hist], 3, [CAR], MatchingMode.CENTERDISTANCE, [1.0])
+        acc.compared()
+        for nm, cx in (("unknown-labelled estimates under ALLOW_UNKNOWN", cu), ("bus / unknown-labelled estimates under ALLOW_ANY", ca)):
+            if _results(cx) != _results(c0):
+                bad("label-policy-dependence", "%s score %s, car-labelled estimates on the same tracks %s" % (nm, _results(cx), _results(c0)))
+        acc.state(("unk_tracks", hist), nontrivial=c0.id_switch > 0 or c0.tp > 0)
     elif k == "rawname":
         # the same tracks, spelled differently from frame to frame in the source data: the evaluated labels are identical
         hist = [tuple(tuple(r) for r in f) for f in case["hist"]]
